@@ -158,8 +158,18 @@ class Job:
             out, err = p.communicate()
             if p.returncode != 0:
                 raise Broken('clang failed on %s:\n%s' % (s, err.decode()[-3000:]))
+        # function overrides (logging-only or otherwise cut functions, each listed in the evidence): definitions in these files
+        # replace the same-named definitions of the oomd sources
+        ovs = []
+        for s in self.h.get('override_cxx', []):
+            s = os.path.join(V, s)
+            o = os.path.join(self.dir, os.path.basename(s) + '.ov.bc')
+            rc, out, e, _ = sh(flags + [s, '-o', o])
+            if rc:
+                raise Broken('clang failed on %s:\n%s' % (s, e[-3000:]))
+            ovs.append('--override=' + o)
         linked = os.path.join(self.dir, 'all.bc')
-        rc, o, e, _ = sh(['llvm-link-14'] + bcs + ['-o', linked])
+        rc, o, e, _ = sh(['llvm-link-14'] + bcs + ovs + ['-o', linked])
         if rc:
             raise Broken('llvm-link: ' + e[-2000:])
         keep = ','.join(['harness'] + self.h.get('keep', []))
@@ -214,8 +224,9 @@ class Job:
         if not trace_props:
             self.res['sat_backend'] = winner
         self.res['cbmc_wall_s'] = round(self.res.get('cbmc_wall_s', 0) + dt, 2)
-        with open(os.path.join(self.dir, 'cbmc-trace.json' if trace_props else 'cbmc.json'), 'w') as f:
-            f.write(out)
+        if os.environ.get('VF_KEEP_JSON'):   # (hundreds of MB per variant: kept only for debugging)
+            with open(os.path.join(self.dir, 'cbmc-trace.json' if trace_props else 'cbmc.json'), 'w') as f:
+                f.write(out)
         if err == 'TIMEOUT':
             raise Broken('cbmc timeout after %ss (no verdict; not counted as held)' % self.timeout)
         try:
@@ -269,7 +280,7 @@ class Job:
         os.makedirs(odir, exist_ok=True)
         dfl = defs_flags(self.defs)
         for s, fl in self.oomd_srcs() + self.cxx_srcs(real=True) + [(os.path.join(V, 'rt', 'vf_real.cpp'), [])]:
-            key = hashlib.sha256((s + ' '.join(dfl + fl) + ' '.join(REAL_FLAGS)).encode() + self.dephash(s)).hexdigest()[:20]
+            key = hashlib.sha256((s + ' '.join(dfl + fl) + ' '.join(REAL_FLAGS) + ' '.join(self.h.get('override_symbols', []))).encode() + self.dephash(s)).hexdigest()[:20]
             o = os.path.join(odir, os.path.basename(s) + '.' + key + '.o')
             objs.append(o)
             if not os.path.exists(o):
@@ -278,7 +289,16 @@ class Job:
             out, err = p.communicate()
             if p.returncode != 0:
                 raise Broken('g++ (real build) failed on %s:\n%s' % (s, err.decode()[-3000:]))
+            if self.h.get('override_symbols'):   # the overridden definitions become weak so that the override file's definitions win
+                sh(['objcopy'] + sum([['-W', sy] for sy in self.h['override_symbols']], []) + [o + '.tmp'])
             os.replace(o + '.tmp', o)
+        for s in self.h.get('override_cxx', []):
+            s = os.path.join(V, s)
+            o = os.path.join(self.dir, os.path.basename(s) + '.ov.o')
+            rc, out, e, _ = sh(['g++'] + REAL_FLAGS + inc + dfl + ['-c', s, '-o', o])
+            if rc:
+                raise Broken('g++ (real build) failed on %s:\n%s' % (s, e[-3000:]))
+            objs.append(o)
         cobjs = []
         for s in self.c_srcs() + [os.path.join(V, 'rt', 'vf_rt.c'), os.path.join(V, 'rt', 'vf_num.c')]:
             o = os.path.join(self.dir, os.path.basename(s) + '.real.o')
@@ -409,9 +429,13 @@ def run_job(job, ndiff):
                 for p in uf:
                     m = re.match(r'^(.*)\.unwind\.(\d+)$', p.get('property', ''))
                     if m:
-                        new.add('%s.%s:%d' % (m.group(1), m.group(2), big))
+                        # every loop of a function that hit the bound gets the big bound (identifiers of loops that do not
+                        # exist are ignored by cbmc): one round per function instead of one per loop
+                        for k in range(max(12, int(m.group(2)) + 1)):
+                            new.add('%s.%d:%d' % (m.group(1), k, big))
                 if not new or new <= job.auto_unwindset:
                     break
+                sys.stderr.write('[%s] unwind refinement round %d: +%s\n' % (job.id, _round, ' '.join(sorted(set(x.rsplit('.', 1)[0] for x in new - job.auto_unwindset))))); sys.stderr.flush()
                 job.auto_unwindset |= new
                 results = job.run_cbmc()
             r['unwind_refined_loops'] = sorted(job.auto_unwindset)
